@@ -272,7 +272,7 @@ fn main() {
         t
     });
 
-    let nmax: i64 = tier.pick(20_000, 99_999);
+    let nmax: i64 = tier.pick(20_000, 999_999);
     run.bound("S2_unscaled_max", nmax);
     run.bound("S2_scales", "-6..=6, i64::MIN, i64::MAX");
     run.par("S2 constructors x accessors", (nmax + 1) as usize, |i| {
@@ -400,6 +400,37 @@ fn main() {
             t.nontrivial += 1;
             for viol in check_extension(x, ks[i]) {
                 run.report(viol);
+            }
+        }
+        t
+    });
+    // S4b: extension whose product c*10^k sits on a machine-word limit: c = floor(2^e / 10^k) + {-1,0,1,2} and
+    // the word-limit coefficients 2^e + d, for every k <= 45 (any u64 / i128 / u128 shortcut for the product)
+    let kb: u64 = tier.pick(45, 80);
+    run.bound("S4b_extension", format!("0..={}", kb));
+    run.par("S4b extension across machine-word limits", (kb + 1) as usize, |k| {
+        let k = k as u64;
+        let mut t = Tally::default();
+        let p = pow10(k);
+        let mut cs: Vec<BigInt> = word_limit_ints();
+        for e in [31usize, 32, 63, 64, 127, 128] {
+            let q = (BigInt::from(1) << e) / &p;
+            for d in [-1i64, 0, 1, 2] {
+                let c = &q + d;
+                if c.is_positive() {
+                    cs.push(-c.clone());
+                    cs.push(c);
+                }
+            }
+        }
+        for c in cs {
+            for s in [0i128, 3, -2] {
+                t.states += 1;
+                t.transitions += 4;
+                t.nontrivial += 1;
+                for viol in check_extension(&Dec { n: c.clone(), s }, k) {
+                    run.report(viol);
+                }
             }
         }
         t
